@@ -81,6 +81,8 @@ pub struct Cfg {
     pub features: u64,
     pub pf: u64,
     pub exit: bool,
+    /// the exit events are the two ends of a pipe (two different files) instead of two descriptors of one eventfd
+    pub exit_pipe: bool,
     pub fail_update_memory: bool,
 }
 
@@ -254,7 +256,15 @@ impl<V: VringT<GM> + Send + Sync + 'static> VhostUserBackend for TB<V> {
         self.cfg.masks.clone()
     }
     fn exit_event(&self, _thread_index: usize) -> Option<(EventConsumer, EventNotifier)> {
-        if self.cfg.exit {
+        if self.cfg.exit && self.cfg.exit_pipe {
+            let mut fds = [0i32; 2];
+            // SAFETY: pipe2 fills the two descriptors; result checked.
+            if unsafe { libc::pipe2(fds.as_mut_ptr(), libc::O_CLOEXEC | libc::O_NONBLOCK) } != 0 {
+                return None;
+            }
+            // SAFETY: fresh descriptors, owned by the two halves from here on.
+            Some(unsafe { (EventConsumer::from_raw_fd(fds[0]), EventNotifier::from_raw_fd(fds[1])) })
+        } else if self.cfg.exit {
             new_event_consumer_and_notifier(EventFlag::NONBLOCK).ok()
         } else {
             None
@@ -717,8 +727,11 @@ impl<V: VringT<GM> + Clone + Send + Sync + 'static> Rig<V> {
             return log;
         }
         drop(peer);
-        dropper();
-        drop(restart);
+        if guarded_drop(dropper) {
+            drop(restart);
+        } else {
+            std::mem::forget(restart);
+        }
         let _ = std::fs::remove_file(&path);
         log
     }
@@ -733,6 +746,8 @@ pub fn cfg_of(case: &Value) -> Cfg {
         features: case.get("features").map(from_bits).unwrap_or((1 << 30) | (1 << 29) | (1 << 26) | (1 << 32) | 1),
         pf: case.get("pf").map(from_bits).unwrap_or(0x3f_ffff & !(1 << 8) & !(1 << 17)),
         exit: case["exit"].as_bool().unwrap_or(true),
+        // every other case (by id) hands the daemon pipe-backed exit events
+        exit_pipe: case["exit_pipe"].as_bool().unwrap_or(case["id"].as_u64().unwrap_or(0) % 2 == 1),
         fail_update_memory: case["fail_update_memory"].as_bool().unwrap_or(false),
     }
 }
@@ -763,8 +778,9 @@ pub fn run(cases: &[Value], trace: &mut Trace, seed: u64) {
             after = thread_count();
         }
         let stuck = WORKER_STUCK.load(std::sync::atomic::Ordering::SeqCst);
-        // with a deadlocked worker left behind the thread count says nothing about teardown
-        trace.emit(json!({"ev": "threads", "before": watch_threads, "after": if stuck { watch_threads } else { after }, "exit": case["exit"].as_bool().unwrap_or(true)}));
+        let drop_stuck = DROP_STUCK.load(std::sync::atomic::Ordering::SeqCst);
+        // with a deadlocked worker left behind the thread count says nothing about teardown (unless it is the teardown that hangs)
+        trace.emit(json!({"ev": "threads", "before": watch_threads, "after": if stuck && !drop_stuck { watch_threads } else { after }, "exit": case["exit"].as_bool().unwrap_or(true)}));
         if stuck {
             trace.flush();
             eprintln!("vh daemon: a worker thread is blocked on a lock for good; ending this process after case {k}");
@@ -776,6 +792,51 @@ pub fn run(cases: &[Value], trace: &mut Trace, seed: u64) {
 /// set when a worker of this process was found blocked on a lock for good; the process ends after the current case
 /// (exit status 77: the driver runs the remaining cases in a fresh process)
 pub static WORKER_STUCK: std::sync::atomic::AtomicBool = std::sync::atomic::AtomicBool::new(false);
+/// Dropping a daemon joins its workers: done on a helper thread, so that a join that never returns (workers that do not see
+/// their exit event) is data -- positively observed: the helper and every worker asleep in a system call after the watchdog
+/// has expired -- and not a hung harness.  `x` is anything whose release drops the daemon (the daemon itself, a closure).
+pub fn guarded_drop<T: Release + Send + 'static>(x: T) -> bool {
+    let (tx, rx) = std::sync::mpsc::channel();
+    let h = std::thread::Builder::new()
+        .name("vh-dropper".into())
+        .spawn(move || {
+            x.release();
+            let _ = tx.send(());
+        })
+        .unwrap();
+    let tids = || {
+        let mut v = tids_named("vh-dropper");
+        v.extend(tids_named("vring_worker"));
+        v
+    };
+    if recv_or_blocked(&rx, Duration::from_secs(3), Duration::from_secs(120), &tids, &[]).is_some() {
+        let _ = h.join();
+        true
+    } else {
+        WORKER_STUCK.store(true, std::sync::atomic::Ordering::SeqCst);
+        DROP_STUCK.store(true, std::sync::atomic::Ordering::SeqCst);
+        false
+    }
+}
+pub trait Release {
+    fn release(self);
+}
+impl Release for Box<dyn FnOnce() + Send> {
+    fn release(self) {
+        self()
+    }
+}
+impl<T: VhostUserBackend + Clone + 'static> Release for VhostUserDaemon<T>
+where
+    T::Vring: Clone + Send + Sync + 'static,
+    T::Bitmap: Clone + Send + Sync + 'static,
+{
+    fn release(self) {
+        drop(self)
+    }
+}
+/// set when dropping the daemon never returned (its helper thread and the workers all blocked)
+pub static DROP_STUCK: std::sync::atomic::AtomicBool = std::sync::atomic::AtomicBool::new(false);
 
 /// is some worker thread waiting on a futex (system call 202 on x86-64, 98 on aarch64) in each of five samples 200 ms apart,
 /// without any of them having entered another system call in between?
